@@ -119,24 +119,17 @@ func (sess *UserSession) Move(w *imapserver.MoveWriter, numSet imap.NumSet, dest
 
 	sess.mailbox.mutex.Lock()
 	defer sess.mailbox.mutex.Unlock()
-	seqNums := sess.mailbox.expungeLocked(expunged)
+	sess.mailbox.expungeLocked(expunged)
 
-	err = w.WriteCopyData(&imap.CopyData{
+	// The EXPUNGE responses are not written here: expungeLocked has queued
+	// them for every session of the mailbox, this one included, and the poll
+	// which follows the command sends them, in order with the updates queued
+	// before them, ahead of the tagged response
+	return w.WriteCopyData(&imap.CopyData{
 		UIDValidity: dest.uidValidity,
 		SourceUIDs:  sourceUIDs,
 		DestUIDs:    destUIDs,
 	})
-	if err != nil {
-		return err
-	}
-
-	for _, seqNum := range seqNums {
-		if err := w.WriteExpunge(sess.mailbox.tracker.EncodeSeqNum(seqNum)); err != nil {
-			return err
-		}
-	}
-
-	return nil
 }
 
 func (sess *UserSession) Poll(w *imapserver.UpdateWriter, allowExpunge bool) error {
